@@ -32,6 +32,16 @@ def param_forms(seed):
     out.append(('contract_dict_noend', lambda: A.SimpleContract('c', n1, price='p1', min_cap=-1., max_cap={'start': list(st), 'values': [1., 2., 3.]})))
     out.append(('contract_dict_numpy', lambda: A.SimpleContract('c', n1, price='p1', min_cap=-1.,
                                                                 max_cap={'start': np.array(st), 'end': np.array(en), 'values': np.array([1., 2., 3.])})))
+    # date arrays of other resolutions than nanoseconds (np.datetime64 days / seconds / minutes), in limits and in take periods
+    out.append(('contract_dict_numpy_seconds', lambda: A.SimpleContract('c', n1, price='p1', min_cap=-1.,
+                                                                        max_cap={'start': np.array(st, dtype='datetime64[s]'), 'end': np.array(en, dtype='datetime64[s]'),
+                                                                                 'values': np.array([1., 2., 3.])})))
+    out.append(('contract_take_numpy_days', lambda: A.Contract('c', n1, price='p1', min_cap=0., max_cap=2.,
+                                                               max_take={'start': np.array(['2021-01-04'], dtype='datetime64[D]'), 'end': np.array(['2021-01-05'], dtype='datetime64[D]'),
+                                                                         'values': np.array([3.])})))
+    out.append(('transport_take_numpy_minutes', lambda: A.ExtendedTransport('t', [n1, n2], min_cap=0., max_cap=2., efficiency=0.5,
+                                                                            min_take={'start': np.array([S0 + H], dtype='datetime64[m]'), 'end': np.array([S0 + 5 * H], dtype='datetime64[m]'),
+                                                                                      'values': np.array([2.])})))
     out.append(('contract_dict_dateindex', lambda: A.SimpleContract('c', n1, price='p1', min_cap=-1.,
                                                                     max_cap={'start': pd.DatetimeIndex(st), 'end': pd.DatetimeIndex(en), 'values': np.array([1., 2., 3.])})))
     out.append(('contract_dict_tzaware', lambda: A.SimpleContract('c', n1, price='p1', min_cap=-1.,
